@@ -273,7 +273,7 @@ def shrink(case):
 
 def finding_key(case, res):
     c = {k: case[k] for k in ("kind", "e", "ordering", "a", "b") if k in case}
-    return json.dumps(X.to_str_tree(c) if False else c, sort_keys=True)
+    return json.dumps(GE.alpha_normalise(c), sort_keys=True)
 
 
 MANIFEST = {
